@@ -55,6 +55,7 @@ type Key struct{ M, P string }
 type Entry struct {
 	Route *fox.Route
 	Seq   int // registration sequence number (handler identity)
+	TS    int // trailing-slash option the surviving registration was made with
 }
 
 // Model is the sequential map model.
@@ -158,7 +159,8 @@ func New(cfg Cfg, opts ...fox.GlobalOption) (*Engine, error) {
 
 func (e *Engine) handler(seq int) fox.HandlerFunc {
 	return func(c fox.Context) {
-		e.Sink.Hits = append(e.Sink.Hits, rt.Hit{Kind: "route", Pattern: fmt.Sprintf("%s#%d", c.Pattern(), seq)})
+		e.Sink.Hits = append(e.Sink.Hits, rt.Hit{Kind: "route", Pattern: fmt.Sprintf("%s#%d", c.Pattern(), seq), Params: rt.Collect(c)})
+		c.Writer().WriteHeader(http.StatusOK)
 	}
 }
 
@@ -381,7 +383,7 @@ func (e *Engine) applyInsert(op Op) error {
 		if rte == nil || rte.Pattern() != op.Pattern {
 			return fmt.Errorf("%s %s %q: returned route %v", op.Kind, op.Method, op.Pattern, rte)
 		}
-		m[k] = &Entry{Route: rte, Seq: seq}
+		m[k] = &Entry{Route: rte, Seq: seq, TS: tsOf(op)}
 		for _, rk := range e.lastRemoved {
 			if rk.M == k.M && commonPrefix(rk.P, k.P) >= 2 {
 				e.Stat["nontrivial:insert-after-removal-sharing-prefix"]++
@@ -439,10 +441,12 @@ func (e *Engine) applyUpdate(op Op) error {
 		if rte == nil || rte == m[k].Route || rte.Pattern() != op.Pattern {
 			return fmt.Errorf("%s %s %q: returned route is not a new route for that pattern", op.Kind, op.Method, op.Pattern)
 		}
-		m[k] = &Entry{Route: rte, Seq: seq}
+		m[k] = &Entry{Route: rte, Seq: seq, TS: tsOf(op)}
 	}
 	return nil
 }
+
+func tsOf(op Op) int { return op.TS }
 
 func (e *Engine) applyDelete(op Op) error {
 	m := e.current()
